@@ -352,7 +352,7 @@ func init() {
 	vt.Register(&vt.Check{
 		Prop:  "C04",
 		Level: "exploration",
-		Rule: "operation sets {Call,Call}, {Call,Batch[c,n,c]}, {Batch[c,c],Call}, {Call,Call,Call}, {Batch[n,c,n]} against a raw peer; reply streams = every permutation of the replies x every partition into records (objects / arrays) " +
+		Rule: "operation sets {Call,Call}, {Call,Batch[c,n,c]}, {Batch[c,c],Call}, {Call,Call,Call}, {Batch[n,c,n]}, {Batch[n,c],Call}, {Batch[c,n,c],Batch[n,c]} against a raw peer; reply streams = every permutation of the replies x every partition into records (objects / arrays) " +
 			"x one extra item {duplicate reply, malformed member with a pending id, unknown id, server notification, server callback, non-object member} at every position, x one reply omitted; " +
 			"records are delivered with a settle in between (first reply wins) or back to back (any reply sent for the id), plus delay-bounded schedules and seeded random streams with up to 24 outstanding requests. " +
 			"distinct_nontrivial = distinct (operations, stream, mode, delay set) with at least two replies",
@@ -379,7 +379,7 @@ func c04slotsOf(ops []string) int {
 }
 
 func c04cases(e vt.Env, yield func(vt.Case) bool) {
-	opsets := [][]string{{"C", "C"}, {"C", "B:cnc"}, {"B:cc", "C"}, {"C", "C", "C"}, {"B:ncn"}}
+	opsets := [][]string{{"C", "C"}, {"C", "B:cnc"}, {"B:cc", "C"}, {"C", "C", "C"}, {"B:ncn"}, {"B:nc", "C"}, {"B:cnc", "B:nc"}}
 	extras := []string{"", "dup", "mal", "mal2", "unk", "note", "cb", "nonobj"}
 	for oi, ops := range opsets {
 		n := c04slotsOf(ops)
